@@ -438,3 +438,19 @@ Theorem c17_code_failed_analysis_changes_nothing : forall c e,
   = Some (false, am_added (c_req c), c_writer c).
 Proof. exact gen_call_analyze_request_errst_unchanged. Qed.
 Print Assumptions c17_code_failed_analysis_changes_nothing.
+
+(* ================================================================== send_body_despite_method (translated from the source) *)
+(** Call<WithoutBody>::into_send_body -- the escape hatch that makes the analysis skip the method/body rule -- is translated on every
+    run and proved to be the model's [into_send_body]: refused (assert!) once the request was analysed, otherwise the skip flag set,
+    the writer the chunked default, nothing else changed (proofs/Gen2_equiv_small_despite.v). *)
+From Hoot.proofs Require Import Gen2_equiv_small_despite.
+Theorem c17_code_into_send_body : forall c,
+  match into_send_body c, gen_into_send_body (c_analyzed c) (c_skip c) (c_writer c) with
+  | Ok c', Ok (skip', w', _) =>
+      c_skip c' = skip' /\ c_writer c' = w' /\ c_req c' = c_req c /\ c_analyzed c' = c_analyzed c /\ c_phase c' = c_phase c /\
+      c_reader c' = c_reader c /\ c_stop c' = c_stop c
+  | Panic _, Panic _ => True
+  | _, _ => False
+  end.
+Proof. exact gen_into_send_body_eq. Qed.
+Print Assumptions c17_code_into_send_body.
